@@ -172,7 +172,7 @@ for (n, tier) in [("open_dev_all_permissive", "thorough")] + [("open_dev_strict_
     harness(n, props=["C16", "C04", "C05"], tier=tier, timeout=7200, mem=16, fs=8192, stubs=[FMT, STUB_UP],
             what="open_internal on the foreign-layout image with deviations planted in the bytes (D1 wrong FAT sector count, D2 wrong MiniFAT sector count, D3 non-zero v3 directory sector count, D5 FAT sector not marked in the FAT, D6 zero-padded FAT, D7 adjacent red nodes, D8 over-long MiniFAT): all at once are accepted by permissive open with the caches, lookups and stream bytes of the undamaged file; each alone is rejected by strict open",
             bounds="one 6-sector v3 image; mini stream contents and metadata symbolic; deviation set concrete per instance", functions=OPEN_F, assumes=[A_SHAPE, A_UPTABLE])
-harness("open_counts_alloc", props=["C05", "C16"], tier="thorough", timeout=7200, mem=16, fs=8192, stubs=[FMT, STUB_UP, "with_capacity"],
+harness("open_counts_alloc", props=["C05", "C16"], tier="quick", timeout=7200, mem=16, fs=8192, stubs=[FMT, STUB_UP, "with_capacity"],
         what="open_internal (permissive) with the header's four count fields (directory / FAT / MiniFAT / DIFAT sectors) ANY u32: accepted, table sizes come from the chains, and no Vec::with_capacity call asks for more elements than a small multiple of the file's size (stub asserts the bound, then reserves)",
         bounds="6-sector v3 image; the four count fields symbolic (all u32)", functions=OPEN_F, assumes=[A_SHAPE, A_UPTABLE, "stub: Vec::with_capacity(n) asserts n <= 4 x file size, then Vec::new() + reserve_exact(n)"])
 for (n, tier) in [("open_uncovered_reuse", "thorough"), ("open_uncovered_grow", "thorough")]:
@@ -196,16 +196,16 @@ harness("mini_next_total", props=["C11", "C05", "C04"], timeout=600, mem=6, stub
 harness("mini_begin_at_128", props=["C15", "C02", "C03"], tier="quick", timeout=3600, mem=12, fs=16384, stubs=[FMT, STUB_COPY],
         what="begin_mini_chain when the cached MiniFAT holds exactly 128 entries (one v3 MiniFAT sector's worth) while the MiniFAT chain already has two sectors (trailing mini sectors were released earlier): the chain and the header count stay at two, the new cell is written through into the second MiniFAT sector, the file grows only by the mini stream's one sector",
         bounds="one layout: 20-sector v3 image, 128 one-sector mini chains", functions=MINI_F, assumes=[A_SHAPE, A_IOCOPY])
-harness("dir_validate_total", props=["C05", "C16", "C04"], tier="quick", timeout=3600, mem=12, stubs=[FMT, STUB_UP],
+harness("dir_validate_total", props=["C05", "C16", "C04"], tier="parked", timeout=3600, mem=12, stubs=[FMT, STUB_UP],
         what="Directory::validate on a 3-entry directory (root + a, b) whose left/right/child links are ANY u32 and whose colours and non-root types are arbitrary: never panics, terminates; permissive acceptance == (reachable links in range, a tree, storages/streams only, locally ordered); strict == permissive and no two adjacent reds; lookups on every accepted directory terminate and return only the named reachable slot",
         bounds="3 directory entries, names a < b concrete; all link values (any u32), colours and types symbolic", functions=["Directory::validate", "Directory::stream_id_for_name_chain", "path::compare_names"], assumes=[A_UPTABLE, "stream entries carry no child (DirEntry::read_from rejects that in both modes: dirent_parse_stream_*)"])
 # ---------------------------------------------------------------- C13/C02/C17: fault inside a directory entry update (h_dfault.rs)
-for (_n, _t) in [("at0", "thorough"), ("at1", "thorough"), ("at2", "thorough"), ("at3", "thorough"), ("at9", "thorough"), ("at20", "thorough")]:
+for (_n, _t) in [("at0", "parked"), ("at1", "parked"), ("at2", "parked"), ("at3", "parked"), ("at9", "parked"), ("at20", "parked")]:
     harness("c13_dirent_fault_" + _n, props=["C13", "C02", "C17"], tier=_t, timeout=7200, mem=10, stubs=[FMT],
             what="with_dir_entry_mut (last step of every write-back, of set_len and of every setter) with the k-th backend seek/write failing: the error surfaces; after the same update is retried without fault and returns Ok, the 128 bytes of the entry in the file (own encoder) equal the entry in memory - an Ok must be durable",
             bounds="fault position k concrete per instance; new start sector / length / state bits arbitrary (symbolic); 4-entry v3 directory in a 2-sector image", functions=["Directory::with_dir_entry_mut", "Directory::write_dir_entry", "DirEntry::write_to", "Chain::write"], assumes=[A_SHAPE])
 for _k in range(9):
-    harness("c13_mini_first_fault_at%d" % _k, props=["C13", "C02"], tier="thorough", timeout=7200, mem=10, stubs=[FMT, STUB_COPY],
+    harness("c13_mini_first_fault_at%d" % _k, props=["C13", "C02"], tier="parked", timeout=7200, mem=10, stubs=[FMT, STUB_COPY],
             what="begin_mini_chain on a fresh file (no MiniFAT yet) with the k-th backend seek/write failing, then retried without fault: the error surfaces; if the retry returns Ok the header names the MiniFAT sector the allocator uses, the MiniFAT cell and the root entry are in the file (an Ok after a failed attempt must leave a file that reopens)",
             bounds="fault position k concrete per instance (0..8); 2-sector v3 image growing to 4", functions=MINI_F + ["Allocator::allocate_sector", "Sectors::init_sector"], assumes=[A_SHAPE, A_IOCOPY])
 # ---------------------------------------------------------------- C11: entries whose (start sector, length) disagree with their chain (h_incons.rs)
@@ -418,7 +418,7 @@ QUICK.update({
     "C04": ["c09_cmp_ascii_2_2", "c09_cmp_sigma_2_2", "alloc_next_total", "chain_new_total"] + _LOOK +
            ["dirent_parse_stream_v3", "dirent_parse_root_v3", "stor_read_cross", "alloc_validate_rel", "open_valid_permissive"],
     "C05": ["alloc_next_total", "chain_new_total", "alloc_validate_rel", "dirent_parse_storage_v3", "dirent_parse_badtype_v3",
-            "dirent_parse_stream_v3"],
+            "dirent_parse_stream_v3", "open_counts_alloc"],
     "C06": ["c06_seek_total", "c11_write_total", "c11_resize_u64max", "stor_read_clip"] + _CQ,
     "C07": _RM + _INS[:1] + ["alloc_free_chain3", "stor_write_mid", "big_4096_to_100", "big_remove_4096", "big_write_4096_mid", "api_setters"],
     "C08": ["alloc_begin_free13", "alloc_extend_free3", "stor_resize_in_sector", "stor_resize_reuse", "big_grow_100_to_4200", "big_5000_to_5100"],
